@@ -341,7 +341,14 @@ class Moment:
 
     def _sorted_operations_(self) -> tuple[cirq.Operation, ...]:
         if self._sorted_operations is None:
-            self._sorted_operations = tuple(sorted(self._operations, key=lambda op: op.qubits))
+            # Order by the set of qubits (equal operations may list the qubits of a symmetric gate in
+            # either order); operations without qubits all tie, so order those by their repr.
+            self._sorted_operations = tuple(
+                sorted(
+                    self._operations,
+                    key=lambda op: (tuple(sorted(op.qubits)), '' if op.qubits else repr(op)),
+                )
+            )
         return self._sorted_operations
 
     def _with_key_path_(self, path: tuple[str, ...]):
